@@ -301,3 +301,11 @@ class P(Prop):
     def mutate(self, case, rng):
         for _ in range(20):
             yield self.lattice(rng)
+
+
+# ---- tie to the source by translation (tools/py2lean.py -> lean/TracklibVerif/Gen/ObsCoords.lean, regenerated on every run)
+P.tie_modules = ["TracklibVerif.Tie.C17"]
+P.theorems = P.theorems + [
+    ("TracklibVerif.Tie.C17", "TV.Tie.C17.tie_sub", "the Lean translation of the CURRENT source of ENUCoords.__sub__ is the component-wise difference"),
+    ("TracklibVerif.Tie.C17", "TV.Tie.C17.tie_distance2DTo", "the translation of the CURRENT source of ENUCoords.distance2DTo (with __sub__, norm2D) equals the model's dist2D on all arguments (x ** 2 = x * x)"),
+]
